@@ -9,7 +9,7 @@ m --file internal/ge25519/scalarmult_base_choose_niels_ref.go --tags noasm --che
 m --file internal/ge25519/movecond_unsafe.go --tags noasm --checks C16 --configs K1,K2 --n 50 --seed 14
 m --file internal/ge25519/movecond_slow.go --tags "noasm appengine" --checks C16 --configs K4,K5 --n 30 --seed 15
 m --file internal/modm/modm_64bit.go --suite --checks C19,C16,C17 --configs K0 --n $N --seed 16
-m --file internal/curve25519/curve25519_donna_64bit.go --suite --checks C18 --configs K0 --n $N --seed 17
+m --file internal/curve25519/curve25519_donna_64bit.go --lines 1-620 --suite --checks C18 --configs K0 --n $N --seed 17
 m --file internal/ge25519/ge25519.go --suite --checks C16,C10 --configs K0 --n 100 --seed 18
 m --file batch_verify.go --suite --checks C17,C06,C13 --configs K0 --n $N --seed 19
 m --file ed25519.go --suite --checks C01,C02,C04,C05,C07,C13,C14 --configs K0 --n 100 --seed 20
